@@ -150,7 +150,17 @@ Fixpoint eval (L : Z) (ctx : option jsval) (c : comp) (st : chain) : outcome * c
       | (ONormal, st1, m) => (ONormal, st1, m)
       | (OPanic p, st1, m) =>
           match try_catch p with
-          | TCaught v => let '(o, st2, m2) := eval L (Some v) h st1 in (o, st2, Z.max m m2)
+          | TCaught v =>
+              (* the catch clause runs under a second tryCatchEvaluate; what it lets
+                 through is thrown again as panic(newException(value)) *)
+              match eval L (Some v) h st1 with
+              | (ONormal, st2, m2) => (ONormal, st2, Z.max m m2)
+              | (OPanic p2, st2, m2) =>
+                  match try_catch p2 with
+                  | TCaught v2 => (OPanic (Exc (BValue v2)), st2, Z.max m m2)
+                  | TRaised q => (OPanic q, st2, Z.max m m2)
+                  end
+              end
           | TRaised q => (OPanic q, st1, m)
           end
       end
